@@ -158,6 +158,7 @@ package gts
 //@   trusted LocationList is a pointer-linked list of unbounded length; the general reduction (a fold of the Push merge table) is outside the verified subset. Join@two is proved.
 //@   requires len(locs) >= 1 && (forall k in 0..len(locs): !isnil(locs[k]))
 //@   ensures !isnil(out)
+//@   ensures own_list: is(out, Joined) ==> fresh(out.(Joined))
 //@   assigns nothing
 
 //@ func flattenLocations(locs []Location) (list []Location)
@@ -611,8 +612,9 @@ package gts
 //@   ensures !isnil(out)
 //@   assigns nothing
 //@ func (l Location) Expand(i, n int) (out Location)
-//@   trusted interface contract: purity is proved for the leaf kinds; composites allocate fresh part lists
+//@   trusted interface contract: purity is proved for the leaf kinds, for Joined (any number of parts), Complemented and for Ordered over leaf parts; a composite result owns a fresh part list (proved for the same implementers; for an Ordered with composite parts it is assumed)
 //@   ensures !isnil(out)
+//@   ensures ownParts(out)
 //@   assigns nothing
 //@ func (l Location) Reverse(length int) (out Location)
 //@   trusted interface contract: purity is proved for the leaf kinds; composites allocate fresh part lists; the result is a function of the arguments
@@ -825,9 +827,9 @@ package gts
 //@   assigns nothing
 
 //@ func asComplete(loc Location) (out Location)
-//@   trusted recursive; it rewrites the part lists of the Joined/Ordered value it is given (and nothing else)
+//@   trusted recursive; it rewrites the part list of the Joined/Ordered value it is given in place (and, for a composite nested inside it, that one's list too: not modelled) and nothing else
 //@   ensures !isnil(loc) ==> !isnil(out)
-//@   assigns heap(Location)
+//@   assigns loc.(Joined), loc.(Ordered)
 
 //@ func Erase(seq Sequence, offset, length int) (out Sequence)
 //@   prop C03 C11
@@ -845,7 +847,7 @@ package gts
 //@   ensures !isnil(out) && len(bytesOf(out)) == end - start && fresh(bytesOf(out))
 //@   ensures window: forall k in 0..end-start: bytesOf(out)[k] == old(bytesOf(seq)[start+k])
 //@   ensures count: len(featsOf(out)) <= len(featsOf(seq)) && fresh(featsOf(out))
-//@   assigns heap(Location)
+//@   assigns nothing
 //@   loop 1: invariant fresh(ff) && len(ff) <= len(featsOf(seq))
 //@   loop 1: decreases len(ff) - i
 
@@ -857,7 +859,7 @@ package gts
 //@   requires ite(start < 0, start + len(bytesOf(seq)), start) <= ite(end < 0, end + len(bytesOf(seq)), end)
 //@   ensures !isnil(out) && len(bytesOf(out)) == ite(end < 0, end + len(bytesOf(seq)), end) - ite(start < 0, start + len(bytesOf(seq)), start) && fresh(bytesOf(out))
 //@   ensures window: forall k in 0..len(bytesOf(out)): bytesOf(out)[k] == old(bytesOf(seq)[ite(start < 0, start + len(bytesOf(seq)), start) + k])
-//@   assigns heap(Location)
+//@   assigns nothing
 //@   loop 1: invariant fresh(ff)
 //@   loop 1: decreases len(ff) - i
 
@@ -868,7 +870,7 @@ package gts
 //@   ensures !isnil(out) && len(bytesOf(out)) == len(bytesOf(seq)) - start + end && fresh(bytesOf(out))
 //@   ensures upper: forall k in 0..len(bytesOf(seq))-start: bytesOf(out)[k] == old(bytesOf(seq)[start+k])
 //@   ensures lower: forall k in 0..end: bytesOf(out)[len(bytesOf(seq))-start+k] == old(bytesOf(seq)[k])
-//@   assigns heap(Location)
+//@   assigns nothing
 //@   loop 1: invariant fresh(ff)
 //@   loop 1: decreases len(ff) - i
 
@@ -903,9 +905,53 @@ package gts
 //@ spec macro cov2(l Location, x int) bool =
 //@   ite(is(l, Joined), len(l.(Joined)) == 2 && (cov(l.(Joined)[0], x) || cov(l.(Joined)[1], x)), cov(l, x))
 
+// A composite result owns its part list: it is allocated by the call, never the receiver's
+// (asComplete rewrites such a list in place, so an aliased list would change the argument).
+//@ spec macro ownParts(l Location) bool = (is(l, Joined) ==> fresh(l.(Joined))) && (is(l, Ordered) ==> fresh(l.(Ordered)))
+
 //@ func (joined Joined) Expand(i, n int) (out Location)
-//@   trusted general case (any number of parts) relies on the general Join; the two-part case is proved as Joined.Expand@two
+//@   prop C11 C03
+//@   requires len(joined) >= 1 && (forall k in 0..len(joined): !isnil(joined[k]))
 //@   ensures !isnil(out)
+//@   ensures own_list: is(out, Joined) ==> fresh(out.(Joined))
+//@   assigns nothing
+//@   loop 1: invariant fresh(locs) && len(locs) == len(joined) && (forall k in 0..j: !isnil(locs[k]))
+//@   loop 1: decreases len(joined) - j
+
+//@ func (joined Joined) Shift(i, n int) (out Location)
+//@   prop C11 C02
+//@   requires len(joined) >= 1 && (forall k in 0..len(joined): !isnil(joined[k]))
+//@   ensures !isnil(out)
+//@   ensures own_list: is(out, Joined) ==> fresh(out.(Joined))
+//@   assigns nothing
+//@   loop 1: invariant fresh(locs) && len(locs) == len(joined) && (forall k in 0..j: !isnil(locs[k]))
+//@   loop 1: decreases len(joined) - j
+
+//@ func (joined Joined) Normalize(length int) (out Location)
+//@   prop C11 C04
+//@   requires len(joined) >= 1 && (forall k in 0..len(joined): !isnil(joined[k]))
+//@   ensures !isnil(out)
+//@   ensures own_list: is(out, Joined) ==> fresh(out.(Joined))
+//@   assigns nothing
+//@   loop 1: invariant fresh(ll) && len(ll) == len(joined) && (forall k in 0..i: !isnil(ll[k]))
+//@   loop 1: decreases len(joined) - i
+
+//@ func (complement Complemented) Expand(i, n int) (out Location)
+//@   prop C11 C03
+//@   requires !isnil(complement.Location)
+//@   ensures is(out, Complemented) && !isnil(out.(Complemented).Location)
+//@   assigns nothing
+
+//@ func (complement Complemented) Shift(i, n int) (out Location)
+//@   prop C11 C02
+//@   requires !isnil(complement.Location)
+//@   ensures is(out, Complemented) && !isnil(out.(Complemented).Location)
+//@   assigns nothing
+
+//@ func (complement Complemented) Normalize(length int) (out Location)
+//@   prop C11 C04
+//@   requires !isnil(complement.Location)
+//@   ensures is(out, Complemented) && !isnil(out.(Complemented).Location)
 //@   assigns nothing
 
 // Deleting [i, i-n) from a join of two ranges: survivors are exactly the images, and two
